@@ -788,8 +788,54 @@ def account(ctx, packed):
             ctx.disagreement("notation %r: %s" % (r["key"][1], "; ".join(r["diffs"][:3])), dict(r["replay"], model_diffs=r["diffs"][:6]))
 
 
+
+def reparse_cases(ctx):
+    """Parsing is a function of the string: parsing the same string again — after the first result has been consumed,
+    through parse_notation, Pattern.pattern or an event-dict value — yields a NEW sequence that starts from the
+    beginning and shares no state with the first (oracle on the implementation alone)."""
+    common.ensure_repo_on_path()
+    import isobar as iso
+    from isobar.notation import parse_notation
+    r = ctx.rng
+    for i in range(ctx.scale(300, 6000)):
+        t = gen_tree(r, r.randint(0, 3))
+        if has_empty_group(t) or not t:
+            continue
+        s_ = format_canonical(t)
+        via = r.choice(["parse_notation", "Pattern.pattern", "PDict"])
+
+        def mk():
+            if via == "parse_notation":
+                return parse_notation(s_)
+            if via == "Pattern.pattern":
+                return iso.Pattern.pattern(s_)
+            return iso.PDict({"note": s_})["note"]
+        try:
+            p1 = mk()
+            n = r.randint(1, 9)
+            first = [repr(next(p1)) for _ in range(n)]
+            k = r.randint(1, 7)
+            for _ in range(k):
+                next(p1)
+            p2 = mk()
+            second = [repr(next(p2)) for _ in range(n)]
+        except Exception as ex:
+            ctx.violation("C20:reparse:raised", "%s(%r) twice raised %s" % (via, s_, type(ex).__name__), {"suite": "reparse", "string": s_, "via": via})
+            continue
+        ctx.case(("reparse", s_, via, n, k), nontrivial=len(first) > 1, validated=False,
+                 sample={"reparse": {"string": s_, "via": via, "first": first[:5]}} if i < 2 else None)
+        ctx.count("reparse:" + via)
+        if p1 is p2:
+            ctx.violation("C20:reparse:same-object", "%s(%r) returned the same stateful object twice" % (via, s_),
+                          {"suite": "reparse", "string": s_, "via": via})
+        elif first != second:
+            ctx.violation("C20:reparse:resumes-mid-cycle", "%s(%r): first parse yields %s, a second parse (after %d values were consumed from the first) yields %s" % (
+                via, s_, first, n + k, second), {"suite": "reparse", "string": s_, "via": via, "consumed": n + k})
+
+
 def run(ctx):
     signal.signal(signal.SIGALRM, _alarm)
+    reparse_cases(ctx)
     ma = ctx.model_available
     # 1. corpus
     corpus = [{"kind": "mutation", "s": s, "mutations": ["corpus"], "base": s, "play": 12, "pattern": True} for s in CORPUS]
